@@ -439,6 +439,20 @@ string Subprocess::communicate(
     }
   }
 
+  // The child may exit (ending the loop above) before we have read everything
+  // it wrote; whatever is still in the pipe must not be lost. All write ends
+  // are closed once the child is gone, so this cannot block.
+  if ((this->wait(true) >= 0) && (this->stdout_read_fd >= 0)) {
+    for (;;) {
+      string data = read(this->stdout_read_fd, 4096);
+      if (data.empty()) {
+        break;
+      }
+      stdout_bytes += data.size();
+      stdout_queue.emplace_back(std::move(data));
+    }
+  }
+
   if (this->wait(true) < 0) {
     // The loop above ends only when the child has exited or the deadline has
     // passed (a deadline of zero means no deadline)
